@@ -92,7 +92,15 @@ def replay_spec_cases(chk, cases):
         else:
             ranges = [("on", float(t - 1))] + ([("off", t - 1 - 0.5)] if t >= 2 else [])
         for kind, r in ranges:
-            o = impl.outcome(hr.danger_space, U.Foot(r), height, U.Degree(0))
+            # the range as a quantity, or as a BARE number of the preferred distance unit in force (beyond the end always; on / off
+            # the grid only where the conversion is exact, so that equality with a row's distance is preserved)
+            pd = m.PreferredUnits.distance
+            if (kind == "beyond" and pr % 2) or (pd in (U.Foot, U.Inch) and (t + h) % 2):
+                at_arg = U.Foot(r) >> pd
+                chk.stratum("range_as_bare_number")
+            else:
+                at_arg = U.Foot(r)
+            o = impl.outcome(hr.danger_space, at_arg, height, U.Degree(0))
             key = {"d": d, "t": t, "h": h, "range": kind, "rising": any(d[i] < d[i + 1] for i in range(n - 1))}
             nontriv = n >= 3 and t > 0
             chk.count(1, (tuple(d), t, h, kind) if nontriv else None)
@@ -238,7 +246,7 @@ def run(chk: core.Check, replay=None) -> None:
         info = raw[tid]
         chk.violation(clause, {"source": "real", "rising_branch": info["rising_branch"]}, info)
     chk.sample({"real_call": next(iter(raw.values()))})
-    chk.require_strata(["beyond", "rising", "on_grid", "off_grid", "monotone_pairs", "real_rising", "real_falling", "real_beyond", "rows_redisplayed", "rows_as_built", "real_rows_redisplayed", "asked_under_non_default_preferences"])
+    chk.require_strata(["beyond", "rising", "on_grid", "off_grid", "monotone_pairs", "real_rising", "real_falling", "real_beyond", "rows_redisplayed", "rows_as_built", "real_rows_redisplayed", "asked_under_non_default_preferences", "range_as_bare_number"])
     chk.rule.append(f"every drop sequence of length<=%d over 0..%d x target row x half-height in %s (TLC Gen_DangerSpace), on- and "
                     f"off-grid ranges; plus seeded real extra-data trajectories x targets x heights; non-trivial = >=3 rows and "
                     f"target inside the trajectory" % (maxlen, maxdrop, halves))
